@@ -46,10 +46,13 @@ NoTask == [none |-> TRUE]
 
 (* ---------- scripts ---------- *)
 (* s1,s2 plain; sv needs var v; sx does not compile; sf needs the cluster at start;  *)
+(* sb is a batch task querying db1.rp1: StartBatching fails unless its dbrps are d1;  *)
 (* q1,q2 template scripts with defaulted vars; qv needs var v; qf needs the cluster.  *)
 NeedsVar(s) == s \in {"sv", "qv"}
 Compiles(s) == s \notin {"sx", ""}
-StartOK(s) == s \notin {"sf", "qf"} \/ up
+\* r: a task record or definition (script, dbrps are read)
+StartOK(r) == /\ (r.script \in {"sf", "qf"} => up)
+              /\ (r.script = "sb" => r.dbrps = "d1")
 ValidRec(r) == Compiles(r.script) /\ (NeedsVar(r.script) => r.vars # "none")
 
 OrNone(s) == IF s = "" THEN "none" ELSE s
@@ -78,7 +81,7 @@ StartTask(m, t, r) ==
     IF ~ValidRec(r)
     THEN [m EXCEPT !.att = @ \cup {t}, !.lastOK[t] = FALSE, !.sfail = TRUE]
     ELSE LET m1 == TErr(m, t, FALSE) IN
-         IF StartOK(r.script)
+         IF StartOK(r)
          THEN [m1 EXCEPT !.X = @ \cup {t}, !.att = @ \cup {t}, !.lastOK[t] = TRUE]
          ELSE [TErr(m1, t, TRUE) EXCEPT !.att = @ \cup {t}, !.lastOK[t] = FALSE, !.sfail = TRUE]
 
@@ -318,7 +321,7 @@ RefStep(a, ap, mm, q) ==
                 tgt == TplTarget(a, mm, p, newId, newS)
                 members == { t \in TaskIds : <<p, t>> \in mm /\ a[t] # NoTask }
                 \* every enabled task of the template is reloaded and must accept the new definition
-                canAll == \A t \in members : tgt[t].status = "enabled" => (ValidDef(tgt[t]) /\ StartOK(newS))
+                canAll == \A t \in members : tgt[t].status = "enabled" => (ValidDef(tgt[t]) /\ StartOK(tgt[t]))
             IN
             IF ~Compiles(newS) \/ (newId # p /\ ap[newId] # "none") \/ ~canAll THEN Rejected(a, ap, mm)
             ELSE RefRes(tgt, [ap EXCEPT ![p] = "none", ![newId] = newS],
@@ -329,7 +332,7 @@ Q(op, id, newid, tpl, script, dbrps, vs, status) ==
     [op |-> op, id |-> id, newid |-> newid, tpl |-> tpl, script |-> script, dbrps |-> dbrps, vars |-> vs, status |-> status]
 
 Pairs(S) == { x \in S \X S : x[1] # x[2] }
-TaskScripts == IF Level = "quick" THEN {"s1", "sv", "sx"} ELSE {"s1", "s2", "sv", "sx", "sf"}
+TaskScripts == IF Level = "quick" THEN {"s1", "sv", "sx"} ELSE {"s1", "sv", "sx", "sf", "sb"}
 TplScripts == IF Level = "quick" THEN {"q1", "qv"} ELSE {"q1", "q2", "qv", "qf"}
 
 CreateReqs ==
@@ -484,7 +487,7 @@ ExecutingIffEnabledStarted ==
 \* after a restart (clean or after a crash) every enabled task whose start succeeds is executing
 RestartRestoresExecuting ==
     last.kind \in {"restart", "crash"} =>
-        X = { t \in TaskIds : Enabled(t) /\ ValidRec(T[t]) /\ StartOK(T[t].script) }
+        X = { t \in TaskIds : Enabled(t) /\ ValidRec(T[t]) /\ StartOK(T[t]) }
 
 \* the associations are exactly the memberships the accepted requests created; after a crash
 \* none is missing and a left-over one is inert (it names a task that is gone or belongs elsewhere)
